@@ -27,6 +27,16 @@ CHECKS.update({
    text="Every insert/remove/search with a symbolic key or victim from every AVL tree of height <= 3 (20 shapes; thorough: height <= 4, 335 shapes), and every insert/remove pattern of length 5 (thorough 7) from the empty tree with symbolic keys; the solver partitions key space (all relative orders incl. duplicates). Full invariant oracle after every call.",
    note=E2NOTE + " Packed parent word configuration (A_SIZE_POINTER == 8)."),
 })
+CHECKS.update({
+ "C02": dict(engine="llsym", cat="model_checking", design="4/C02",
+   technique="symbolic execution of src/rbt.c IR (llsym + z3): inductive step from every valid red-black tree up to a node bound with symbolic keys/victims, plus bounded histories; A_ASSUME operands checked as assertions",
+   text="Every insert/remove/search with symbolic key or victim from every valid red-black tree with <= 8 nodes (123 trees; thorough: <= 10 nodes, 377 trees) and every insert/remove pattern of length 5 (7) from the empty tree; full red-black + BST + parent-link + contents oracle after every call.",
+   note=E2NOTE + " Packed parent word configuration (bit 0 = colour)."),
+ "C03": dict(engine="llsym", cat="model_checking", design="4/C03",
+   technique="symbolic execution of the iterator functions and the header's foreach/fortear macros (instantiated in a wrapper TU) over every tree shape up to the bound; freed-node instrumentation for tear-down",
+   text="All six iteration orders, successor/predecessor inverse clauses for a symbolic start node, and tear-down interrupted at a symbolic point, on every AVL shape of height <= 3 (4) and every red-black tree with <= 7 (9) nodes; each torn-down node object is freed at once so any later access is a use-after-free finding.",
+   note=E2NOTE + " Shapes are enumerated (bounded); the solver decides start node, interruption point and key-order clauses."),
+})
 NOT_YET = {}
 
 def main():
